@@ -28,6 +28,10 @@ def run(P, R, L):
     K.own11_table_cache_key(P, R, L)
     K.bundle_filter(P, R, L)
     K.agr2_codec_pairs(P, R, L, groups=("table",))
+    R.clause("VERD-2", "KeyNotFound ('not in this file, keep searching older files') is never the answer to a failed open / read")
+    K.verd2_not_found_only_for_a_miss(P, R, L)
+    R.clause("ATOM-1", "read_from is a positional read that does not use the shared cursor of the file handle")
+    K.atom1_positional_read_is_one_operation(P, R, L)
     R.clause("GRD-27", "an index separator is strictly below the first key of the next block")
     K.grd27_separator_strictly_below_next_key(P, R, L)
     R.clause("ORD-20", "a data block is finalized only after it was found non-empty")
